@@ -1312,6 +1312,9 @@ void Validator::ValidatorImpl::validateUnits(const UnitsPtr &units, History &his
                     validateUnits(importedUnits, history, modelsVisited, importSource->url());
                     modelsVisited.pop_back();
                 }
+                // The history is the chain of imports that leads here, not every import visited so far (a second
+                // reference to the same imported units is not a cycle).
+                history.pop_back();
             } else {
                 auto issue = Issue::IssueImpl::create();
                 issue->mPimpl->setDescription("Imported units '" + units->name() + "' refers to units '" + unitsRef + "' which does not appear in '" + importSource->url() + "'.");
